@@ -83,6 +83,24 @@ def py_top(x, bare=False):
     return py_item(x) if bare else (py_item(x), -1, -1)
 
 
+_UNSAFE = {"\ue085": "\x85", "\ue028": "\u2028", "\ue029": "\u2029"}
+
+
+def unescape(x):
+    """Undo the driver's replacement of the three line-breaking code points its JSON printer leaves raw
+    (the framework splits the driver output with str.splitlines())."""
+    if isinstance(x, str):
+        for a, b in _UNSAFE.items():
+            if a in x:
+                x = x.replace(a, b)
+        return x
+    if isinstance(x, list):
+        return [unescape(y) for y in x]
+    if isinstance(x, dict):
+        return {k: unescape(v) for k, v in x.items()}
+    return x
+
+
 class PlainMapping(collections.abc.Mapping):
     """A Mapping that is not a dict (only `__getitem__` raising KeyError, `__iter__`, `__len__`)."""
 
@@ -344,6 +362,176 @@ def gen_timed(rng, n, hi=30, sort=False, zero_len=0.15, toks=None):
     return [[t, frac_str(s), frac_str(e)] for t, s, e in out]
 
 
+# ----------------------------------------------------------------------------- hand-written ctm text
+def dec_str(x):
+    """exact decimal expansion of a dyadic rational (at least one fractional digit), like repr(float)"""
+    x = Fraction(x)
+    p = 1
+    while (x * 10 ** p).denominator != 1:
+        p += 1
+    m = int(x * 10 ** p)
+    sign = "-" if m < 0 else ""
+    m = abs(m)
+    return f"{sign}{m // 10 ** p}.{m % 10 ** p:0{p}d}"
+
+
+def spell_number(rng, x):
+    """one of the spellings of the non-negative dyadic x that float() accepts (all exactly x)"""
+    x = Fraction(x)
+    base = dec_str(x)
+    ip, fp = base.split(".")
+    forms = [base, base, base + "0", "0" + base, "+" + base, f"{ip}{fp}e-{len(fp)}", f"{ip}{fp}E-{len(fp)}",
+             dec_str(x * 10) + "e-1", dec_str(x / 10 ** 2) + "e+2", dec_str(x / 10) + "E1"]
+    if fp == "0":
+        forms += [ip, ip + ".", ip + "e0", ip + "E+0"]
+    if ip == "0":
+        forms += ["." + fp]
+    return rng.choice(forms)
+
+
+def gen_ctm_text(rng):
+    """records -> lines with the liberties a hand-written / third-party ctm takes"""
+    wfns = ["w1", "w2", "940328", "é", "日本"]
+    chans = ["A", "B", "1"]
+    n = rng.randint(0, 7)
+    recs = []
+    for _ in range(n):
+        s = grid_time(rng, 0, rng.choice([3, 30]))
+        du = Fraction(0) if rng.random() < 0.15 else Fraction(rng.randrange(1, 200), 64)
+        recs.append([rng.choice(wfns), rng.choice(chans), frac_str(s), frac_str(du), rng.choice(TOK_TIMED)])
+    if rng.random() < 0.5:
+        recs.sort(key=lambda r: (r[0], r[1], Fraction(r[2])))
+    use_map = rng.random() < 0.5
+    wc2utt = None
+    if use_map:
+        keys = sorted({(r[0], r[1]) for r in recs})
+        if keys and rng.random() < 0.15:
+            keys = keys[:-1]                   # KeyError on read
+        wc2utt = [[w, c, f"utt-{w}-{c}"] for w, c in keys]
+    lines, well_formed = [], True          # lines: [text, index of its record or None]
+    bad = rng.random() < 0.25
+    bad_at = rng.randrange(len(recs)) if recs and bad else None
+    eol = rng.choice(["\n", "\n", "\r\n"])
+    for i, (w, c, s, du, tok) in enumerate(recs):
+        if rng.random() < 0.15:
+            lines.append([rng.choice(["", "   ", ";; a comment", "  ;;", ";;;; w A 1.0 1.0 x", "\t"]), None])
+        cols = [w, c, spell_number(rng, s), spell_number(rng, du), tok]
+        if rng.random() < 0.3:
+            cols.append(rng.choice(["0.9", "1", "NA", "-1e3", "x"]))          # confidence column
+        if i == bad_at:
+            well_formed = False
+            how = rng.choice(["few", "many", "nan_start", "nan_dur", "neg", "rev", "alt"])
+            if how == "few":
+                cols = cols[:rng.choice([1, 2, 3, 4])]
+            elif how == "many":
+                cols = cols[:5] + ["0.5", "extra"]
+            elif how == "nan_start":
+                cols[2] = rng.choice(["abc", "1..2", "--1", "1e", "e5", ".", "1,5", "0x10"])
+            elif how == "nan_dur":
+                cols[3] = rng.choice(["abc", "1.2.3", "+-1", "", "-"]) or "x"
+            elif how == "neg":
+                cols[2] = "-" + dec_str(Fraction(s) + 1)
+            elif how == "rev":
+                cols[3] = "-" + dec_str(Fraction(du) + Fraction(1, 64))
+            elif how == "alt":
+                cols[4] = rng.choice(["<ALT_BEGIN>", "<ALT>", "<ALT_END>"])    # read as ordinary tokens
+                recs[i] = [w, c, s, du, cols[4]]
+                well_formed = True
+        seps = [rng.choice([" ", " ", "  ", "\t", " \t ", "\u3000"]) for _ in cols]
+        line = rng.choice(["", "", " ", "\t"]) + "".join(a + b for a, b in zip(cols, seps)).rstrip() \
+            + rng.choice(["", "", " ", "  ;; note", " ;;"] + ([] if cols[-1].endswith(";") else [";;x"]))
+        lines.append([line, i])
+    case = {"kind": "ctm_text", "lines": lines, "eol": eol, "final_eol": not (lines and rng.random() < 0.1),
+            "wc2utt": wc2utt, "recs": recs, "well_formed": well_formed, "map_type": rng.choice(MAP_TYPES)}
+    case["text"] = ctm_text_of(case)
+    return case
+
+
+def ctm_text_of(case):
+    text = "".join(l + case["eol"] for l, _ in case["lines"])
+    if case["lines"] and not case["final_eol"]:
+        text = text[:-len(case["eol"])]        # no newline at the end of the file
+    return text
+
+
+# ----------------------------------------------------------------------------- TextGrids with several tiers
+def fmt_p(x, p):
+    return f"{float(Fraction(x)):.{p}f}"
+
+
+def tg_doc_text(case):
+    """Serialise the tiers the way Praat does: "long" (`xmin = ...`, `item [1]:`) or "short" layout."""
+    p, tiers = case["precision"], case["tiers"]
+    lo = fmt_p(min(Fraction(t["tmin"]) for t in tiers), p)
+    hi = fmt_p(max(Fraction(t["tmax"]) for t in tiers), p)
+    # Praat puts an empty line after the two header lines; the long layout is only recognised with it, the
+    # short one also without (the library's own writer and tests leave it out)
+    blank = "\n" if case.get("blank_line", True) or case["layout"] == "long" else ""
+    head = 'File type = "ooTextFile"\nObject class = "TextGrid"\n' + blank
+    out = [head]
+    if case["layout"] == "long":
+        out.append(f"xmin = {lo} \nxmax = {hi} \ntiers? <exists> \nsize = {len(tiers)} \nitem []: \n")
+        for i, t in enumerate(tiers):
+            cls = "TextTier" if t["point"] else "IntervalTier"
+            out.append(f'    item [{i + 1}]:\n        class = "{cls}" \n        name = "{t["name"]}" \n'
+                       f'        xmin = {fmt_p(t["tmin"], p)} \n        xmax = {fmt_p(t["tmax"], p)} \n')
+            if t["point"]:
+                out.append(f'        points: size = {len(t["entries"])} \n')
+                for j, (tok, a, _) in enumerate(t["entries"]):
+                    out.append(f'        points [{j + 1}]:\n            number = {fmt_p(a, p)} \n'
+                               f'            mark = "{tok}" \n')
+            else:
+                out.append(f'        intervals: size = {len(t["entries"])} \n')
+                for j, (tok, a, b) in enumerate(t["entries"]):
+                    out.append(f'        intervals [{j + 1}]:\n            xmin = {fmt_p(a, p)} \n'
+                               f'            xmax = {fmt_p(b, p)} \n            text = "{tok}" \n')
+    else:
+        out.append(f"{lo}\n{hi}\n<exists>\n{len(tiers)}\n")
+        for t in tiers:
+            cls = "TextTier" if t["point"] else "IntervalTier"
+            out.append(f'"{cls}"\n"{t["name"]}"\n{fmt_p(t["tmin"], p)}\n{fmt_p(t["tmax"], p)}\n{len(t["entries"])}\n')
+            for tok, a, b in t["entries"]:
+                out.append(f'{fmt_p(a, p)}\n"{tok}"\n' if t["point"] else f'{fmt_p(a, p)}\n{fmt_p(b, p)}\n"{tok}"\n')
+    return "".join(out)
+
+
+TG_DOC_TOKS = ["a", "b", "cat", "", "two words", "é", "日本語", "12", "3.5", "{", ";;", "sil", "x y z", "(u)"]
+
+
+def gen_tg_doc(rng):
+    ntier = rng.choice([1, 2, 2, 3, 3, 4])
+    names = [rng.choice(["words", "phones", "pts", "a", "b", "my tier", "1", "é"]) for _ in range(ntier)]
+    tiers = []
+    for name in names:
+        point = rng.random() < 0.35
+        n = rng.choice([0, 1, 2, 3, 5])
+        cur = grid_time(rng, 0, rng.choice([2, 9, 12]))
+        tmin = cur - (Fraction(rng.randrange(0, 64), 64) if rng.random() < 0.4 else 0)
+        tmin = max(tmin, Fraction(0))
+        ents = []
+        for _ in range(n):
+            if rng.random() < 0.4:
+                cur += Fraction(rng.randrange(1, 128), 64)
+            if point:
+                ents.append([rng.choice(TG_DOC_TOKS), frac_str(cur), frac_str(cur)])
+                cur += Fraction(rng.randrange(0, 64), 64)
+            else:
+                e = cur + Fraction(rng.randrange(1, 200), 64)
+                ents.append([rng.choice(TG_DOC_TOKS), frac_str(cur), frac_str(e)])
+                cur = e
+        tmax = cur + (Fraction(rng.randrange(0, 64), 64) if rng.random() < 0.4 else 0)
+        tiers.append({"name": name, "point": point, "tmin": frac_str(tmin), "tmax": frac_str(tmax), "entries": ents})
+    r = rng.random()
+    if r < 0.45:
+        tier_id = rng.randrange(-ntier - 1, ntier + 1)
+    elif r < 0.9:
+        tier_id = rng.choice(names)
+    else:
+        tier_id = "no such tier"
+    return {"kind": "tg_doc", "tiers": tiers, "precision": rng.randint(0, 6), "layout": rng.choice(["long", "short"]),
+            "blank_line": rng.random() < 0.7, "tier_id": tier_id, "fill": rng.choice([None, "sil", "a"])}
+
+
 class C11(PropertyCheck):
     pid = "C11"
     rule = ("generated transcript trees (depth <= 4 quick, <= 6 thorough; ids with spaces, number-like tokens, "
@@ -351,13 +539,25 @@ class C11(PropertyCheck):
             "'{}/() a' plus random character soup (malformed stream), ctm collections on a 2^-6 time grid "
             "(below and above 10 s) with channel-string and dict mappings, TextGrid transcripts x precision "
             "0..6 x tier type x start/end/tier_name/fill/tier_id options, frame conversion over dyadic "
-            "frame shifts, the AST-extracted dispatch table. non-trivial: >= 1 alternate, >= 2 utterances "
-            "or >= 2 timed tokens; distinct by the case")
+            "frame shifts (float and int; zero / negative in the malformed stream), the AST-extracted dispatch table. "
+            "Tokens include CJK / astral / combining / RTL / zero-width characters and the delimiters of the other "
+            "formats; white space beyond ASCII in the malformed streams. Top-level alternates bare and wrapped, "
+            "transcripts as list / generator / tuple, utt2wc / wc2utt as dict / MappingProxyType / plain Mapping / "
+            "ChainMap / OrderedDict; every file also written to an io.StringIO and a newline='\\r\\n' file, the CRLF "
+            "file read in text mode and raw. Hand-written ctm text (comments, confidence column, spacing, number "
+            "spellings, malformed lines, LF / CRLF). TextGrid transcripts in and out of time order, labels with line "
+            "breaks; TextGrid files with 1-4 tiers (duplicate names) in the long and short layout x tier_id by "
+            "name / index / negative index / missing x fill. non-trivial: >= 1 alternate, >= 2 utterances, "
+            ">= 2 timed tokens, >= 2 records or >= 2 tiers; distinct by the case")
     assumptions = [
         "Python text I/O, str.split/strip, float repr/parse (shortest round-trip) and '%.{p}f' formatting are "
         "taken at their documented meaning; the model has decimals/rationals, not text, for numbers in ctm",
         "sorted() is a stable sort (modelled by List.mergeSort)",
-        "the regular-expression TextGrid reader (_textgrid.py) is modelled only on write_textgrid's own output",
+        "the regular-expression TextGrid reader (_textgrid.py) is modelled only on write_textgrid's own output "
+        "(a sequential parser of exactly that layout, proved inverse to the writer); files with several tiers / the "
+        "long layout are serialised by the harness and modelled at the level of the tier structure",
+        "float(): decimal literals with optional exponent; inf / nan / digit-group underscores / non-ASCII digits "
+        "are not modelled (not generated)",
         "multiprocessing.Pool.imap delivers each result exactly once in submission order; OS scheduling of "
         "the worker processes is outside the model (exercised with real pools in the thorough tier only)",
         "float rounding is outside the model: exact comparison only on the 2^-6 grid / dyadic frame shifts, "
@@ -431,7 +631,11 @@ class C11(PropertyCheck):
             mode = rng.choice(["chan", "dict", "dict", "default"])
             case = {"kind": "ctm", "ts": ts, "map_type": rng.choice(MAP_TYPES)}
             if mode == "dict":
-                pairs = rng.sample([(w, c) for w in wfns for c in chans], nutt)
+                if rng.random() < 0.4:      # one recording, one channel per utterance (two sides of a call)
+                    w0 = rng.choice(wfns)
+                    pairs = [(w0, c) for c in rng.sample(chans, nutt)]
+                else:
+                    pairs = rng.sample([(w, c) for w in wfns for c in chans], nutt)
                 case["utt2wc"] = [[u, w, c] for u, (w, c) in zip(utt_ids, pairs)]
                 case["wc2utt"] = [[w, c, u] for u, (w, c) in zip(utt_ids, pairs)]
             elif mode == "chan":
@@ -441,7 +645,7 @@ class C11(PropertyCheck):
                 case["utt2wc"] = None       # library default channel
                 case["wc2utt"] = None
             yield case
-        for i in range(15 if not big else 100):  # malformed: negative times, end < start, missing key
+        for i in range(40 if not big else 200):  # malformed: negative times, end < start, missing key
             ts = [["u1", gen_timed(rng, 2)], ["u2", gen_timed(rng, 1)]]
             mode = rng.choice(["neg", "rev", "key", "key_read", "white", "comment", "empty"])
             case = {"kind": "ctm", "ts": ts, "utt2wc": "A", "wc2utt": None, "malformed": mode,
@@ -492,17 +696,20 @@ class C11(PropertyCheck):
                     tt.append([rng.choice(TOK_TIMED), frac_str(s), frac_str(e)])
                 ts.append([u, tt])
             yield {"kind": "ctm", "ts": ts, "utt2wc": "A", "wc2utt": None, "stream": "tolerance"}
+        # --- hand-written ctm text
+        for i in range(60 if not big else 600):
+            yield gen_ctm_text(rng)
         # --- TextGrid
-        names = ["transcript", "my tier", "", "words", "1"]
+        names = ["transcript", "my tier", "", "words", "1", 'a"b', "é 日本", "IntervalTier", '"']
         n_tg = 250 if not big else 2500
         for i in range(n_tg):
             n = rng.choice([1, 2, 3, 4, 6])
             hi = rng.choice([5, 9, 30, 120])
             style = rng.choice(["chain", "gaps", "points", "free"])
             if style == "points":
-                t = gen_timed(rng, n, hi=hi, sort=True, zero_len=1.0)
+                t = gen_timed(rng, n, hi=hi, sort=True, zero_len=1.0, toks=TOK_TG)
             elif style == "free":
-                t = gen_timed(rng, n, hi=hi, sort=rng.random() < 0.7)
+                t = gen_timed(rng, n, hi=hi, sort=rng.random() < 0.7, toks=TOK_TG)
             else:
                 cur = grid_time(rng, 0, hi)
                 t = []
@@ -510,7 +717,7 @@ class C11(PropertyCheck):
                     if style == "gaps" and rng.random() < 0.5:
                         cur += Fraction(rng.randrange(1, 128), 64)
                     e = cur + Fraction(rng.randrange(1, 200), 64)
-                    t.append([rng.choice(TOK_ANY + ["two words", ""]), frac_str(cur), frac_str(e)])
+                    t.append([rng.choice(TOK_TG), frac_str(cur), frac_str(e)])
                     cur = e
             starts = [Fraction(x[1]) for x in t]
             ends = [Fraction(x[2]) for x in t]
@@ -535,9 +742,30 @@ class C11(PropertyCheck):
                 case["tier_id"] = "no such tier"
             elif r < 0.45:
                 case["tier_id"] = rng.choice([-1, 1, 2])
+            if rng.random() < 0.12:      # every option left at its default (the values of pydrobert.torch.config)
+                case.update({"precision": 3, "tier_name": "transcript", "point_tier": None, "start_time": None,
+                             "end_time": None, "use_defaults": True})
+                if isinstance(case["tier_id"], str) and case["tier_id"] != "no such tier":
+                    case["tier_id"] = "transcript"
             yield case
         yield {"kind": "textgrid", "t": [], "precision": 3, "point_tier": None, "tier_name": "transcript",
                "start_time": None, "end_time": None, "fill": None, "tier_id": 0}
+        for i in range(10 if not big else 60):      # malformed: labels / names the format cannot hold
+            t = gen_timed(rng, rng.choice([1, 2, 3]), hi=9, sort=True, toks=TOK_TG)
+            mode = rng.choice(["cr_label", "cr_label", "nl_name", "cr_name"])
+            name = "transcript"
+            if mode == "cr_label":
+                t[rng.randrange(len(t))][0] = rng.choice(["a\rb", "\r", "a\r\nb", "x\r"])
+            elif mode == "nl_name":
+                name = rng.choice(["a\nb", "\n"])
+            else:
+                name = "a\rb"
+            yield {"kind": "textgrid", "t": t, "precision": rng.randint(0, 4), "point_tier": None, "tier_name": name,
+                   "start_time": None, "end_time": None, "fill": rng.choice([None, "sil"]),
+                   "tier_id": rng.choice([0, name]), "malformed": mode}
+        # --- TextGrid files with several tiers, long ("xmin = ...") and short layout
+        for i in range(80 if not big else 800):
+            yield gen_tg_doc(rng)
         # --- frames
         shifts = ["10", "20", "25", "25/2", "1", "1/2", "5/2", "1/8", "8", "125/2"]
         n_fr = 200 if not big else 2000
@@ -557,6 +785,8 @@ class C11(PropertyCheck):
                     e = s if r < 0.2 else s + Fraction(rng.randrange(1, 8 if r < 0.5 else 200), 64)
                     t.append([tok, frac_str(s), frac_str(e)])
             case = {"kind": "frames", "t": t, "f": rng.choice(shifts), "unk": None, "skip": False}
+            if Fraction(case["f"]).denominator == 1 and rng.random() < 0.3:
+                case["f_int"] = True       # frame_shift_ms given as an int
             if use_map:
                 case["token2id"] = [[v, k] for v, k in zip(vocab, ids)]
                 case["id2token"] = [[k, v] for v, k in zip(vocab, ids)]
@@ -570,6 +800,8 @@ class C11(PropertyCheck):
             else:
                 case["token2id"] = None
                 case["id2token"] = None
+                if rng.random() < 0.3:     # "If token2id is None, unk has no effect"
+                    case["unk"] = rng.choice([77, "nokey"])
             if rng.random() < 0.12:  # frame times already given (no frame shift)
                 case["f"] = None
                 t2 = []
@@ -581,6 +813,16 @@ class C11(PropertyCheck):
                         t2.append(x)
                 case["t"] = t2
             yield case
+        for i in range(20 if not big else 100):    # malformed: a zero frame shift means "no frame shift", a
+            n = rng.randint(1, 4)                   # negative one is not rejected (outside the quantifier)
+            t = []
+            for _ in range(n):
+                s_ = grid_time(rng, 0, 12)
+                e_ = s_ if rng.random() < 0.2 else s_ + Fraction(rng.randrange(1, 200), 64)
+                t.append([rng.randrange(0, 9), frac_str(s_), frac_str(e_)] if rng.random() < 0.8 else rng.randrange(0, 9))
+            yield {"kind": "frames", "t": t, "f": rng.choice(["0", "0", "-10", "-1/2", "-8"]), "unk": None,
+                   "token2id": None, "id2token": None, "skip": False, "malformed": "shift",
+                   "f_int": rng.random() < 0.5}
         for i in range(10 if not big else 60):     # oracle-only: arbitrary frame shifts
             t = [[rng.randrange(0, 9), frac_str(round(rng.uniform(0, 20), 3)), None] for _ in range(4)]
             for x in t:
@@ -628,12 +870,23 @@ class C11(PropertyCheck):
 
     def impl_trn(self, case):
         d = data()
-        transcripts = [(u["utt"], [py_top(x) for x in u["t"]]) for u in case["utts"]]
-        (e1, b1), (e2, b2), path = write_both(lambda tgt: d.write_trn(transcripts, tgt), "trn")
+        bare = case.get("bare", False)
+        tr_list = [(u["utt"], [py_top(x, bare) for x in u["t"]]) for u in case["utts"]]
+
+        def transcripts():         # write_trn takes any iterable of pairs
+            kind = case.get("iterable", "list")
+            if kind == "gen":
+                return ((u, iter(t)) for u, t in tr_list)
+            if kind == "tuple":
+                return tuple((u, tuple(t)) for u, t in tr_list)
+            return tr_list
+        write = lambda tgt: d.write_trn(transcripts(), tgt)
+        (e1, b1), (e2, b2), path = write_both(write, "trn")
         obs = {"write_path": e1 or "ok", "write_file": e2 or "ok", "write_same": (e1, b1) == (e2, b2)}
         if e2 is not None:
             return obs
         obs["text"] = b2.decode("utf-8")
+        obs["stringio_same"], obs["crlf_same"], p_crlf = write_more(write, "trn", obs["text"])
 
         def rd(src):
             with warnings.catch_warnings(record=True) as w:
@@ -661,6 +914,16 @@ class C11(PropertyCheck):
                 obs["iter_same"] = canon_trn(list(d.read_trn_iter(f, False))) == obs["read"]
         except OSError:
             obs["iter_same"] = "error" in rf
+        # ... also through a path with workers
+        with fake_pool() as fp:
+            try:
+                obs["iter_pool_same"] = canon_trn(list(d.read_trn_iter(path, False, case["processes"], case["chunk"]))) \
+                    == obs["pool"]
+            except OSError:
+                obs["iter_pool_same"] = obs["pool"] == {"error": "OSError"}
+        # the CRLF file, read in text mode and without newline translation
+        rc = read_crlf(lambda f: canon_trn(d.read_trn(f, warn=False)), p_crlf)
+        obs["read_crlf"] = {k: (v["ok"] if "ok" in v else {"error": v["error"]}) for k, v in rc.items()}
         return obs
 
     def impl_ctm(self, case):
@@ -668,23 +931,38 @@ class C11(PropertyCheck):
         ts = [(u, [(tok, fl(s), fl(e)) for tok, s, e in t]) for u, t in case["ts"]]
         u2w = case.get("utt2wc")
         kw = {}
+        mt = case.get("map_type")
         if isinstance(u2w, str):
             kw["utt2wc"] = u2w
         elif u2w is not None:
-            kw["utt2wc"] = {u: (w, c) for u, w, c in u2w}
+            kw["utt2wc"] = as_mapping({u: (w, c) for u, w, c in u2w}, mt)
         w2u = case.get("wc2utt")
-        w2u_d = None if w2u is None else {(w, c): u for w, c, u in w2u}
-        (e1, b1), (e2, b2), path = write_both(lambda tgt: d.write_ctm(ts, tgt, **kw), "ctm")
+        w2u_d = None if w2u is None else as_mapping({(w, c): u for w, c, u in w2u}, mt)
+        write = lambda tgt: d.write_ctm(ts, tgt, **kw)
+        (e1, b1), (e2, b2), path = write_both(write, "ctm")
         obs = {"write_path": e1 or "ok", "write_file": e2 or "ok", "write_same": (e1, b1) == (e2, b2)}
+        if len(kw) == 1:           # the same call with the option positional
+            (e3, b3), (e4, b4), _ = write_both(lambda tgt: d.write_ctm(ts, tgt, kw["utt2wc"]), "ctmpos")
+            obs["write_same_positional"] = (e3, b3) == (e4, b4) and (e4, b4) == (e2, b2)
+            obs["positional_path_same_as_keyword_path"] = (e3, b3) == (e1, b1)
         if e2 is not None:
             obs["lines"] = {"error": e2}
             return obs
         text = b2.decode("utf-8")
+        obs["text"] = text
         lines = []
-        for ln in text.splitlines():
-            w, c, s, du, tok = ln.split(" ")
-            lines.append([w, c, frac_str(float(s)), frac_str(float(du)), tok])
+        for ln in text.split("\n")[:-1]:
+            cols = ln.split(" ")
+            if len(cols) == 5:     # (a malformed case may put white space into a column)
+                w, c, s, du, tok = cols
+                try:
+                    lines.append([w, c, frac_str(float(s)), frac_str(float(du)), tok])
+                    continue
+                except ValueError:
+                    pass
+            lines.append(ln)
         obs["lines"] = lines
+        obs["stringio_same"], obs["crlf_same"], p_crlf = write_more(write, "ctm", text)
 
         def rd(src):
             r = d.read_ctm(src, w2u_d)
@@ -692,23 +970,77 @@ class C11(PropertyCheck):
         rp, rf = read_both(rd, path)
         obs["read_same"] = rp == rf
         obs["read"] = rf["ok"] if "ok" in rf else {"error": rf["error"]}
+        rc = read_crlf(rd, p_crlf)
+        obs["read_crlf"] = {k: (v["ok"] if "ok" in v else {"error": v["error"]}) for k, v in rc.items()}
+        return obs
+
+    def impl_ctm_text(self, case):
+        d = data()
+        w2u = case.get("wc2utt")
+        w2u_d = None if w2u is None else as_mapping({(w, c): u for w, c, u in w2u}, case.get("map_type"))
+        path = os.path.join(tmpdir(), "hand.ctm")
+        with open(path, "w", newline="") as f:      # the characters as given (CRLF stays CRLF)
+            f.write(case["text"])
+
+        def rd(src):
+            r = d.read_ctm(src, w2u_d)
+            return [[u, [[tok, frac_str(s), frac_str(e)] for tok, s, e in t]] for u, t in r]
+        rp, rf = read_both(rd, path)
+        obs = {"read_same": rp == rf, "read": rf["ok"] if "ok" in rf else {"error": rf["error"]}}
+        try:
+            obs["read_stringio"] = rd(io.StringIO(case["text"]))
+        except Exception as e:
+            obs["read_stringio"] = {"error": type(e).__name__}
+        return obs
+
+    def impl_tg_doc(self, case):
+        d = data()
+        text = tg_doc_text(case)
+        path = os.path.join(tmpdir(), "doc.TextGrid")
+        with open(path, "w") as f:
+            f.write(text)
+
+        def rd(fill):
+            def go(src):
+                tr, a, b = d.read_textgrid(src, case["tier_id"], fill)
+                return {"t": [[tok, frac_str(s), frac_str(e)] for tok, s, e in tr],
+                        "xmin": frac_str(a), "xmax": frac_str(b)}
+            return go
+        rp, rf = read_both(rd(case["fill"]), path)
+        obs = {"read_same": rp == rf, "read": rf["ok"] if "ok" in rf else {"error": rf["error"]}}
+        _, rn = read_both(rd(None), path)
+        obs["read_nofill"] = rn["ok"] if "ok" in rn else {"error": rn["error"]}
+        # defaults: tier_id = first tier, no filling
+        try:
+            with open(path) as f:
+                tr, a, b = d.read_textgrid(f)
+            obs["read_default"] = {"t": [[tok, frac_str(s), frac_str(e)] for tok, s, e in tr],
+                                   "xmin": frac_str(a), "xmax": frac_str(b)}
+        except Exception as e:
+            obs["read_default"] = {"error": type(e).__name__}
         return obs
 
     def impl_textgrid(self, case):
         d = data()
         t = [(tok, fl(s), fl(e)) for tok, s, e in case["t"]]
         kw = {"tier_name": case["tier_name"], "precision": case["precision"]}
+        if case.get("use_defaults"):
+            import pydrobert.torch.config as config
+            if (config.DEFT_TEXTGRID_TIER_NAME, config.DEFT_FLOAT_PRINT_PRECISION) != ("transcript", 3):
+                raise RuntimeError("config defaults changed: DEFT_TEXTGRID_TIER_NAME / DEFT_FLOAT_PRINT_PRECISION")
+            kw = {}
         if case["point_tier"] is not None:
             kw["point_tier"] = case["point_tier"]
         for k in ("start_time", "end_time"):
             if case[k] is not None:
                 kw[k] = fl(case[k])
-        (e1, b1), (e2, b2), path = write_both(lambda tgt: d.write_textgrid(t, tgt, **kw), "tg")
+        write = lambda tgt: d.write_textgrid(t, tgt, **kw)
+        (e1, b1), (e2, b2), path = write_both(write, "tg")
         obs = {"write_path": e1 or "ok", "write_file": e2 or "ok", "write_same": (e1, b1) == (e2, b2)}
         # the same call with every option positional (the order of the signature)
         (e3, b3), (e4, b4), _ = write_both(
-            lambda tgt: d.write_textgrid(t, tgt, kw.get("start_time"), kw.get("end_time"), kw["tier_name"],
-                                         kw.get("point_tier"), kw["precision"]), "tgpos")
+            lambda tgt: d.write_textgrid(t, tgt, kw.get("start_time"), kw.get("end_time"), case["tier_name"],
+                                         kw.get("point_tier"), case["precision"]), "tgpos")
         obs["write_same_positional"] = (e3, b3) == (e4, b4) and (e4, b4) == (e2, b2)
         obs["positional_path_same_as_keyword_path"] = (e3, b3) == (e1, b1)
         if not obs["write_same"]:
@@ -719,7 +1051,19 @@ class C11(PropertyCheck):
         if e2 is not None:
             obs["lines"] = {"error": e2}
             return obs
-        obs["lines"] = b2.decode("utf-8").split("\n")
+        obs["text"] = b2.decode("utf-8")
+        obs["lines"] = obs["text"].split("\n")
+        obs["stringio_same"], obs["crlf_same"], p_crlf = write_more(write, "tg", obs["text"])
+        # a transcript given as a one-shot iterator / as lists instead of tuples writes the same file
+        alt = {}
+        for kind, mk in (("iter", lambda: iter(t)), ("lists", lambda: [list(x) for x in t])):
+            sio = io.StringIO()
+            try:
+                d.write_textgrid(mk(), sio, **kw)
+                alt[kind] = sio.getvalue() == obs["text"]
+            except Exception as e:
+                alt[kind] = type(e).__name__
+        obs["other_sequences_same"] = alt
 
         def rd(fill):
             def go(src):
@@ -732,6 +1076,8 @@ class C11(PropertyCheck):
         obs["read"] = rf["ok"] if "ok" in rf else {"error": rf["error"]}
         _, rn = read_both(rd(None), path)
         obs["read_nofill"] = rn["ok"] if "ok" in rn else {"error": rn["error"]}
+        rc = read_crlf(rd(case["fill"]), p_crlf)
+        obs["read_crlf"] = {k: (v["ok"] if "ok" in v else {"error": v["error"]}) for k, v in rc.items()}
         return obs
 
     def impl_frames(self, case):
@@ -743,6 +1089,8 @@ class C11(PropertyCheck):
         t2i = None if case.get("token2id") is None else {k: v for k, v in case["token2id"]}
         i2t = None if case.get("id2token") is None else {k: v for k, v in case["id2token"]}
         f = None if case["f"] is None else fl(case["f"])
+        if f is not None and case.get("f_int") and f == int(f):
+            f = int(f)
         try:
             tok = d.transcript_to_token(t, t2i, f, case["unk"])
         except (TypeError, ValueError, RuntimeError) as e:
@@ -752,9 +1100,16 @@ class C11(PropertyCheck):
         # ids only
         tok1 = d.transcript_to_token(t, t2i, f, case["unk"], skip_frame_times=True)
         back1 = d.token_to_transcript(tok1, i2t, f)
+        back2 = d.token_to_transcript(tok1.unsqueeze(1), i2t, f)       # the documented (R, 1) shape
+        # keyword spelling of every option
+        tokk = d.transcript_to_token(transcript=t, token2id=t2i, frame_shift_ms=f, unk=case["unk"], skip_frame_times=False)
+        backk = d.token_to_transcript(ref=tok, id2token=i2t, frame_shift_ms=f)
         return {"rows": rows,
                 "back": [x if not isinstance(x, tuple) else [x[0], frac_str(x[1]), frac_str(x[2])] for x in back],
-                "ids_only": [int(v) for v in tok1.tolist()], "back_ids_only": list(back1)}
+                "ids_only": [int(v) for v in tok1.tolist()], "back_ids_only": list(back1),
+                "back_r1_same": list(back2) == list(back1),
+                "keywords_same": bool((tokk == tok).all()) and list(backk) == list(back),
+                "tensor": [str(tok.dtype), list(tok.shape), list(tok1.shape)]}
 
     # ------------------------------------------------------------------ model
     def model_request(self, case):
@@ -771,6 +1126,13 @@ class C11(PropertyCheck):
                 import pydrobert.torch.config as config
                 u2w = config.DEFT_CTM_CHANNEL
             return {"op": "c11.ctm", "case": {"ts": case["ts"], "utt2wc": u2w, "wc2utt": case.get("wc2utt")}}
+        if k == "ctm_text":
+            # read_ctm gets the text through a file opened in text mode: universal newlines
+            return {"op": "c11.ctm_text", "case": {"text": case["text"], "wc2utt": case.get("wc2utt"),
+                                                    "universal": True}}
+        if k == "tg_doc":
+            c = {x: case[x] for x in ("tiers", "precision", "tier_id", "fill")}
+            return {"op": "c11.tg_doc", "case": c}
         if k == "textgrid":
             c = {x: case[x] for x in ("t", "start_time", "end_time", "tier_name", "point_tier", "precision",
                                       "tier_id", "fill")}
@@ -783,6 +1145,7 @@ class C11(PropertyCheck):
     # ------------------------------------------------------------------ correspondence
     def compare(self, case, impl, model):
         k = case["kind"]
+        model = unescape(model)
         if isinstance(impl, dict) and "error" in impl and "message" in impl:
             return [f"implementation raised {impl['error']}: {impl['message']}"]
         out = []
@@ -822,6 +1185,14 @@ class C11(PropertyCheck):
             mp = {"error": "OSError"} if isinstance(mp, dict) else [{"utt": r["utt"], "t": r["t"]} for r in mp]
             if impl["pool"] != mp:
                 out.append(f"pool read impl={framework.short(impl['pool'])} model={framework.short(mp)}")
+            mc = model["read_crlf_raw"]
+            mc = {"error": "OSError"} if isinstance(mc, dict) else [{"utt": r["utt"], "t": r["t"]} for r in mc]
+            if impl["read_crlf"]["raw"] != mc:
+                out.append(f"CRLF file read raw impl={framework.short(impl['read_crlf']['raw'])} "
+                           f"model={framework.short(mc)}")
+            if impl["read_crlf"]["text"] != impl["read"]:
+                out.append(f"CRLF file read in text mode {framework.short(impl['read_crlf']['text'])} != LF file "
+                           f"{framework.short(impl['read'])}")
         elif k == "ctm":
             ml = model["lines"]
             if isinstance(ml, dict) or isinstance(impl["lines"], dict):
@@ -829,10 +1200,30 @@ class C11(PropertyCheck):
                     out.append(f"write_ctm impl={impl['lines']} model={ml}")
                 return out
             exact = case.get("stream") != "tolerance"
-            if not self.lines_eq(impl["lines"], ml, exact):
-                out.append(f"ctm lines impl={framework.short(impl['lines'])} model={framework.short(ml)}")
-            if not self.ts_eq(impl["read"], model["read"], exact):
+            if exact and model.get("text") is not None:
+                # text layer: the very characters, and read_ctm on those characters
+                if impl["text"] != model["text"]:
+                    out.append(f"ctm text impl={impl['text']!r} model={model['text']!r}")
+                want, want_raw = model["read_text"], model["read_crlf_raw"]
+            else:
+                if not self.lines_eq(impl["lines"], ml, exact):
+                    out.append(f"ctm lines impl={framework.short(impl['lines'])} model={framework.short(ml)}")
+                want = want_raw = model["read"]
+            if not self.ts_eq(impl["read"], want, exact):
+                out.append(f"read_ctm impl={framework.short(impl['read'])} model={framework.short(want)}")
+            if not self.ts_eq(impl["read_crlf"]["raw"], want_raw, exact):
+                out.append(f"read_ctm of the CRLF file (raw) impl={framework.short(impl['read_crlf']['raw'])} "
+                           f"model={framework.short(want_raw)}")
+            if impl["read_crlf"]["text"] != impl["read"]:
+                out.append(f"read_ctm of the CRLF file in text mode {framework.short(impl['read_crlf']['text'])} "
+                           f"!= LF file {framework.short(impl['read'])}")
+        elif k == "ctm_text":
+            if not self.ts_eq(impl["read"], model["read"], True):
                 out.append(f"read_ctm impl={framework.short(impl['read'])} model={framework.short(model['read'])}")
+        elif k == "tg_doc":
+            for key in ("read", "read_nofill"):
+                if not self.tg_eq(impl[key], model[key]):
+                    out.append(f"{key} impl={framework.short(impl[key])} model={framework.short(model[key])}")
         elif k == "textgrid":
             ml = model["lines"]
             if isinstance(ml, dict) or isinstance(impl["lines"], dict):
@@ -841,11 +1232,25 @@ class C11(PropertyCheck):
                 return out
             if impl["write_same"] != model["via_path_same"]:
                 out.append(f"path output == file output: impl {impl['write_same']}, model {model['via_path_same']}")
-            if impl["lines"] != ml + [""]:
-                out.append(f"TextGrid text impl={framework.short(impl['lines'])} model={framework.short(ml)}")
-            for key in ("read", "read_nofill"):
-                if not self.tg_eq(impl[key], model[key]):
-                    out.append(f"{key} impl={framework.short(impl[key])} model={framework.short(model[key])}")
+            if impl["text"] != model["text"]:
+                out.append(f"TextGrid text impl={impl['text']!r} model={model['text']!r}")
+            # the model reads from the characters wherever its text reader parses them (carriage returns in
+            # labels included: text mode turns them into new lines); names with a line break are unreadable
+            # for the regex reader in ways the model does not follow
+            parsed = "unparsed" not in model["read_text"]
+            mread = model["read_text"] if parsed else None
+            if mread is not None and not self.tg_eq(impl["read"], mread):
+                out.append(f"read impl={framework.short(impl['read'])} model={framework.short(mread)}")
+            if model["text_domain"] and not self.tg_eq(impl["read_nofill"], model["read_nofill"]):
+                out.append(f"read_nofill impl={framework.short(impl['read_nofill'])} "
+                           f"model={framework.short(model['read_nofill'])}")
+            if model["text_domain"]:
+                if not self.tg_eq(impl["read_crlf"]["text"], model["read_text_crlf"]):
+                    out.append(f"CRLF file read in text mode impl={framework.short(impl['read_crlf']['text'])} "
+                               f"model={framework.short(model['read_text_crlf'])}")
+                if not any("\n" in x[0] for x in case["t"]) and not self.tg_eq(impl["read_crlf"]["raw"], mread):
+                    out.append(f"CRLF file read raw impl={framework.short(impl['read_crlf']['raw'])} "
+                               f"model={framework.short(mread)}")
         elif k == "frames":
             if case.get("stream") == "oracle":
                 return out
@@ -854,6 +1259,9 @@ class C11(PropertyCheck):
             elif not isinstance(impl["rows"], dict):
                 if not self.back_eq(impl["back"], model["back"]):
                     out.append(f"token_to_transcript impl={impl['back']} model={model['back']}")
+                if impl["back_ids_only"] != model["back_plain"]:
+                    out.append(f"token_to_transcript of the ids only impl={impl['back_ids_only']} "
+                               f"model={model['back_plain']}")
         return out
 
     @staticmethod
@@ -919,6 +1327,7 @@ class C11(PropertyCheck):
     # ------------------------------------------------------------------ the property on the implementation
     def predicate(self, case, impl, model):
         k = case["kind"]
+        model = unescape(model)
         if isinstance(impl, dict) and "error" in impl and "message" in impl:
             return [(f"harness-visible exception {impl['error']}: {impl['message']}", None)]
         fails = []
@@ -948,10 +1357,21 @@ class C11(PropertyCheck):
                           f"C11.dispatch.write_{k}"))
         if not impl.get("read_same", True):
             fails.append((f"{k}: reading through a path and through an open file differ", f"C11.dispatch.read_{k}"))
+        if impl.get("stringio_same") is False:
+            fails.append((f"{k}: an io.StringIO receives other characters than a file on disk",
+                          f"C11.dispatch.write_{k}"))
+        if impl.get("crlf_same") is False:
+            fails.append((f"{k}: a file opened with newline='\\r\\n' does not hold the same lines with CRLF ends",
+                          f"C11.dispatch.write_{k}"))
         if k == "trn":
             if model is None or not model.get("in_domain"):
                 return fails
             spec = model["spec"]
+            if impl.get("write_file") != "ok":
+                fails.append((f"write_trn raised {impl.get('write_file')} on an expressible transcript "
+                              f"{framework.short(spec)} (bare alternates: {case.get('bare', False)})",
+                              "C11.trn.write_error"))
+                return fails
             if impl.get("read") != spec:
                 fails.append((f"trn round trip: wrote {framework.short(spec)} read {framework.short(impl.get('read'))}",
                               "C11.trn.roundtrip"))
@@ -961,75 +1381,190 @@ class C11(PropertyCheck):
                               "C11.trn.workers"))
             if impl.get("iter_same") is False:
                 fails.append(("read_trn_iter differs from read_trn", "C11.trn.iter"))
+            for how in ("text", "raw"):
+                if impl["read_crlf"][how] != spec:
+                    fails.append((f"trn written with CRLF line ends, read {how}: wrote {framework.short(spec)} read "
+                                  f"{framework.short(impl['read_crlf'][how])}", "C11.trn.crlf"))
+            if impl.get("iter_pool_same") is False:
+                fails.append(("read_trn_iter(path, processes, chunk_size) differs from read_trn", "C11.trn.iter"))
         elif k == "ctm":
-            if model is None or not model.get("in_domain") or model.get("spec") is None:
+            if model is None or not model.get("in_domain") or model.get("spec") is None or not model.get("fields_ok"):
                 return fails
             exact = case.get("stream") != "tolerance"
             if not self.ts_eq(impl.get("read"), model["spec"], exact):
                 fails.append((f"ctm round trip: expected {framework.short(model['spec'])} read "
                               f"{framework.short(impl.get('read'))}", "C11.ctm.roundtrip"))
+            for how in ("text", "raw"):
+                got = (impl.get("read_crlf") or {}).get(how)
+                if not self.ts_eq(got, model["spec"], exact):
+                    fails.append((f"ctm written with CRLF line ends, read {how}: expected "
+                                  f"{framework.short(model['spec'])} read {framework.short(got)}", "C11.ctm.crlf"))
+        elif k == "ctm_text":
+            fails.extend(self.pred_ctm_text(case, impl))
+        elif k == "tg_doc":
+            fails.extend(self.pred_tg_doc(case, impl))
         elif k == "textgrid":
             fails.extend(self.pred_textgrid(case, impl, model))
         elif k == "frames":
             fails.extend(self.pred_frames(case, impl, model))
         return fails
 
-    def pred_textgrid(self, case, impl, model):
-        t = case["t"]
-        if not t or isinstance(impl.get("lines"), dict):
-            return []
-        starts = [F(x[1]) for x in t]
-        ends = [F(x[2]) for x in t]
-        # domain of the clause: tier-ordered transcript, a tier type that can hold it, valid bounds, tier found
-        if any(a > b for a, b in zip(starts, starts[1:])):
-            return []
-        if case["point_tier"] is True and any(s != e for s, e in zip(starts, ends)):
-            return []
-        if case["tier_id"] not in (0, -1, case["tier_name"]):
-            return []
-        r = impl["read_nofill"]
-        if "error" in r:
-            return [(f"TextGrid written but read_textgrid raised {r['error']}", "C11.textgrid.read_error")]
-        p = case["precision"]
+    @staticmethod
+    def round_half_even(x, p):
+        """the p-digit decimal '%.{p}f' prints for the exact value x (as an integer number of 10^-p)"""
+        y = Fraction(x) * 10 ** p
+        fl_ = y.numerator // y.denominator
+        r = y - fl_
+        if r < Fraction(1, 2):
+            return fl_
+        if r > Fraction(1, 2):
+            return fl_ + 1
+        return fl_ if fl_ % 2 == 0 else fl_ + 1
+
+    def tier_clauses(self, written, read, read_fill, fill, p, point, bounds, sig_prefix):
+        """The clauses on one tier: `written` entries [(tok, s, e)] (exact), what came back without and with
+        a fill token, the precision, whether it is a point tier, the tier bounds that were written."""
         half = Fraction(1, 2 * 10 ** p)
         slack = half * Fraction(1, 10 ** 9) + Fraction(1, 10 ** 12)
         fails = []
+        # the reader orders by start time (a stable sort on the printed value): tier order is kept, entries
+        # handed over out of order come back ordered
+        order = sorted(range(len(written)), key=lambda i: self.round_half_even(written[i][1], p))
+        exp = [written[i] for i in order]
+        got = read["t"]
+        if [x[0] for x in got] != [x[0] for x in exp]:
+            fails.append((f"TextGrid round trip: labels written {[x[0] for x in written]} (starts "
+                          f"{[str(x[1]) for x in written]}) read {[x[0] for x in got]}, expected {[x[0] for x in exp]}",
+                          sig_prefix + ".order"))
+            return fails
+        for (tok, s, e), (_, w_s, w_e) in zip(got, exp):
+            if abs(F(s) - w_s) > half + slack:
+                fails.append((f"start of {tok!r}: wrote {w_s} read {F(s)} at precision {p}", sig_prefix + ".precision"))
+            if point:
+                if F(e) != F(s):
+                    fails.append((f"point {tok!r} read with start {s} != end {e}", sig_prefix + ".point"))
+            elif abs(F(e) - w_e) > half + slack:
+                fails.append((f"end of {tok!r}: wrote {w_e} read {F(e)} at precision {p}", sig_prefix + ".precision"))
+        # the tier's own bounds come back to within the print precision
+        for name, have, want in (("start", read["xmin"], bounds[0]), ("end", read["xmax"], bounds[1])):
+            if abs(F(have) - want) > half + slack:
+                fails.append((f"tier {name} time: {want} written (entries {[(str(a), str(b)) for _, a, b in written]}), "
+                              f"{F(have)} read at precision {p}", sig_prefix + ".bounds"))
+        # gap filling: exactly where prev_end < next_start (on the values read), from the tier's start to its end
+        if fill is not None and read_fill is not None and "error" not in read_fill and not fails:
+            prev = F(read["xmin"])
+            expf = []
+            for tok, s, e in got:
+                if prev < F(s):
+                    expf.append([fill, str(prev), str(F(s))])
+                expf.append([tok, str(F(s)), str(F(e))])
+                prev = F(e)
+            if prev < F(read["xmax"]):
+                expf.append([fill, str(prev), str(F(read["xmax"]))])
+            have = [[tok, str(F(s)), str(F(e))] for tok, s, e in read_fill["t"]]
+            if have != expf:
+                fails.append((f"gap filling: expected {expf} got {have}", sig_prefix + ".fill"))
+            if (read_fill["xmin"], read_fill["xmax"]) != (read["xmin"], read["xmax"]):
+                fails.append(("tier bounds differ between reading with and without a fill token", sig_prefix + ".fill"))
+        return fails
+
+    def pred_textgrid(self, case, impl, model):
+        t = case["t"]
+        if not t or isinstance(impl.get("lines"), dict) or case.get("malformed"):
+            return []
+        fails = []
+        for kind, same in (impl.get("other_sequences_same") or {}).items():
+            if same is not True:
+                fails.append((f"write_textgrid given the transcript as {kind}: {same if same else 'different text'}",
+                              "C11.textgrid.sequence"))
+        starts = [F(x[1]) for x in t]
+        ends = [F(x[2]) for x in t]
+        # domain of the clause: a tier type that can hold the transcript, the tier can be found
+        if case["point_tier"] is True and any(s != e for s, e in zip(starts, ends)):
+            return fails
+        if case["tier_id"] not in (0, -1, case["tier_name"]):
+            return fails
+        r = impl["read_nofill"]
+        if "error" in r:
+            return fails + [(f"TextGrid written but read_textgrid raised {r['error']}", "C11.textgrid.read_error")]
+        p = case["precision"]
         point = impl["lines"][6] == '"TextTier"'
         want_point = case["point_tier"] if case["point_tier"] is not None else None
         if want_point is not None and point != want_point:
             fails.append((f"asked for point_tier={want_point}, file holds {impl['lines'][6]}", "C11.textgrid.tier_type"))
-        got = r["t"]
-        if [x[0] for x in got] != [x[0] for x in t]:
-            fails.append((f"TextGrid round trip: tokens written {[x[0] for x in t]} read {[x[0] for x in got]} "
-                          f"(times written {[str(s) for s in starts]})", "C11.textgrid.order"))
+        written = [(x[0], s, e) for x, s, e in zip(t, starts, ends)]
+        fails.extend(self.tier_clauses(written, r, impl["read"], case["fill"], p, point,
+                                       (min(starts), max(ends)), "C11.textgrid"))
+        # the same file with CRLF line ends reads the same (raw: unless a label holds a line break itself)
+        rc = impl.get("read_crlf") or {}
+        if rc and "error" not in impl["read"]:
+            if not self.tg_eq(rc.get("text"), impl["read"]):
+                fails.append((f"TextGrid with CRLF line ends read in text mode {framework.short(rc.get('text'))} "
+                              f"!= {framework.short(impl['read'])}", "C11.textgrid.crlf"))
+            if not any("\n" in x[0] for x in t) and not self.tg_eq(rc.get("raw"), impl["read"]):
+                fails.append((f"TextGrid with CRLF line ends read raw {framework.short(rc.get('raw'))} "
+                              f"!= {framework.short(impl['read'])}", "C11.textgrid.crlf"))
+        return fails
+
+    def pred_tg_doc(self, case, impl):
+        tiers, tid = case["tiers"], case["tier_id"]
+        n = len(tiers)
+        fails = []
+        if impl.get("read_stringio", impl["read"]) != impl["read"]:
+            fails.append(("tg_doc: StringIO read differs", "C11.dispatch.read_tg_doc"))
+        # the documented selection rule
+        if isinstance(tid, str):
+            sel = next((t for t in tiers if t["name"] == tid), None)
+            want_err = None if sel is not None else "ValueError"
+        else:
+            sel = tiers[tid] if -n <= tid < n else None
+            want_err = None if sel is not None else "IndexError"
+        r = impl["read_nofill"]
+        if want_err is not None:
+            if r != {"error": want_err}:
+                fails.append((f"tier_id={tid!r} on tiers {[t['name'] for t in tiers]}: expected {want_err}, got "
+                              f"{framework.short(r)}", "C11.textgrid.tiers"))
             return fails
-        for (tok, s, e), w_s, w_e in zip(got, starts, ends):
-            if abs(F(s) - w_s) > half + slack:
-                fails.append((f"start of {tok!r}: wrote {w_s} read {F(s)} at precision {p}", "C11.textgrid.precision"))
-            if point:
-                if F(e) != F(s):
-                    fails.append((f"point {tok!r} read with start {s} != end {e}", "C11.textgrid.point"))
-            elif abs(F(e) - w_e) > half + slack:
-                fails.append((f"end of {tok!r}: wrote {w_e} read {F(e)} at precision {p}", "C11.textgrid.precision"))
-        # gap filling: exactly where prev_end < next_start (on the values read), plus the tail
-        if case["fill"] is not None and "error" not in impl["read"]:
-            ft = case["fill"]
-            prev = F(r["xmin"])
-            exp = []
-            for tok, s, e in got:
-                if prev < F(s):
-                    exp.append([ft, prev, F(s)])
-                exp.append([tok, F(s), F(e)])
-                prev = F(e)
-            if prev < F(r["xmax"]):
-                exp.append([ft, prev, F(r["xmax"])])
-            have = [[tok, F(s), F(e)] for tok, s, e in impl["read"]["t"]]
-            if have != exp:
-                fails.append((f"gap filling: expected {exp} got {have}", "C11.textgrid.fill"))
+        if "error" in r:
+            return [(f"tier_id={tid!r} on tiers {[t['name'] for t in tiers]} ({case['layout']} layout): "
+                     f"read_textgrid raised {r['error']}", "C11.textgrid.tiers")]
+        written = [(x[0], F(x[1]), F(x[2])) for x in sel["entries"]]
+        fails.extend(self.tier_clauses(written, r, impl["read"], case["fill"], case["precision"], sel["point"],
+                                       (F(sel["tmin"]), F(sel["tmax"])), "C11.textgrid.tiers"))
+        d0 = impl.get("read_default")
+        if d0 is not None and "error" not in d0 and [x[0] for x in d0["t"]] != [x[0] for x in tiers[0]["entries"]]:
+            fails.append((f"read_textgrid(file) with the defaults returns {[x[0] for x in d0['t']]}, the first tier "
+                          f"holds {[x[0] for x in tiers[0]['entries']]}", "C11.textgrid.tiers.order"))
+        return fails
+
+    def pred_ctm_text(self, case, impl):
+        fails = []
+        if impl.get("read_stringio") != impl.get("read"):
+            fails.append(("ctm text: reading through an io.StringIO and through a file differ", "C11.dispatch.read_ctm"))
+        if not case["well_formed"]:
+            return fails
+        w2u = case.get("wc2utt")
+        m = None if w2u is None else {(w, c): u for w, c, u in w2u}
+        exp = collections.OrderedDict()
+        for rec in case["recs"]:
+            if rec is None:
+                continue
+            w, c, s, du, tok = rec
+            if m is not None and (w, c) not in m:
+                return fails                      # KeyError expected (correspondence only)
+            u = w if m is None else m[(w, c)]
+            exp.setdefault(u, []).append([tok, F(s), F(s) + F(du)])
+        want = [[u, [[tok, str(a), str(b)] for tok, a, b in sorted(t, key=lambda x: x[1])]] for u, t in exp.items()]
+        got = impl["read"]
+        if isinstance(got, dict):
+            return fails + [(f"well-formed ctm text {case['text']!r}: read_ctm raised {got['error']}", "C11.ctm.text")]
+        have = [[u, [[tok, str(F(s)), str(F(e))] for tok, s, e in t]] for u, t in got]
+        if have != want:
+            fails.append((f"ctm text {case['text']!r}: expected {want} read {have}", "C11.ctm.text"))
         return fails
 
     def pred_frames(self, case, impl, model):
-        if isinstance(impl.get("rows"), dict):
+        if isinstance(impl.get("rows"), dict) or case.get("malformed"):
             return []
         t = case["t"]
         t2i, i2t = case.get("token2id"), case.get("id2token")
@@ -1062,6 +1597,17 @@ class C11(PropertyCheck):
         ids = [r[0] for r in impl["rows"]]
         if impl.get("ids_only") != ids:
             fails.append(("skip_frame_times=True gives different ids", "C11.frames.ids_only"))
+        for x, y in zip(t, impl.get("back_ids_only") or []):
+            tok = x[0] if isinstance(x, list) else x
+            if (known is None or tok in known) and y != tok:
+                fails.append((f"frames: ids only: token {tok!r} came back as {y!r}", "C11.frames.ids_only"))
+        if impl.get("back_r1_same") is False:
+            fails.append(("token_to_transcript of an (R, 1) tensor differs from the (R,) one", "C11.frames.ids_only"))
+        if impl.get("keywords_same") is False:
+            fails.append(("frames: options given by keyword give another result than positionally", "C11.frames.keywords"))
+        if impl.get("tensor") and (impl["tensor"][0] != "torch.int64" or impl["tensor"][1] != [len(t), 3]
+                                   or impl["tensor"][2] != [len(t)]):
+            fails.append((f"frames: token tensor dtype/shape {impl['tensor']}", "C11.frames.tensor"))
         return fails
 
     # ------------------------------------------------------------------ evidence
@@ -1075,8 +1621,10 @@ class C11(PropertyCheck):
             return len(case["t"]) >= 2
         if k == "frames":
             return sum(1 for x in case["t"] if isinstance(x, list)) >= 2
-        if k == "trn_lines":
-            return True
+        if k == "ctm_text":
+            return sum(1 for r in case["recs"] if r is not None) >= 2
+        if k == "tg_doc":
+            return len(case["tiers"]) >= 2
         return True
 
     def tags(self, case, impl):
@@ -1100,17 +1648,53 @@ class C11(PropertyCheck):
             t.append(f"trn.utts={min(len(case['utts']), 3)}")
             if isinstance(impl, dict) and isinstance(impl.get("read"), dict):
                 t.append("trn.read_error")
+            t.append(f"trn.alternates={'bare' if case.get('bare') else 'wrapped'}")
+            t.append(f"trn.iterable={case.get('iterable', 'list')}")
+            if any(ord(ch) > 255 for u in case["utts"] for ch in json.dumps(u, ensure_ascii=False)):
+                t.append("trn.beyond_latin1")
         elif k == "ctm":
             u2w = case.get("utt2wc")
             t.append("ctm.map=" + ("default" if u2w is None else "chan" if isinstance(u2w, str) else "dict"))
             if any(F(x[1]) >= 10 for _, tt in case["ts"] for x in tt):
                 t.append("ctm.times>=10")
+            t.append(f"ctm.mapping_type={case.get('map_type', 'dict')}")
+            if isinstance(u2w, list) and len({w for _, w, _ in u2w}) < len(u2w):
+                t.append("ctm.shared_wfn")
+        elif k == "ctm_text":
+            t.append(f"ctm_text.well_formed={case['well_formed']}")
+            t.append("ctm_text.eol=" + ("crlf" if case["eol"] == "\r\n" else "lf"))
+            t.append("ctm_text.map=" + ("none" if case.get("wc2utt") is None else case.get("map_type", "dict")))
+            if any(";;" in l for l, _ in case["lines"]):
+                t.append("ctm_text.comment")
+            if any(i is not None and len(l.split(";;")[0].split()) == 6 for l, i in case["lines"]):
+                t.append("ctm_text.confidence_column")
+            if isinstance(impl, dict) and isinstance(impl.get("read"), dict):
+                t.append("ctm_text.read_error=" + impl["read"]["error"])
+        elif k == "tg_doc":
+            t.append(f"tg_doc.layout={case['layout']}")
+            t.append(f"tg_doc.tiers={len(case['tiers'])}")
+            t.append("tg_doc.tier_id=" + ("name" if isinstance(case["tier_id"], str) else
+                                          "negative" if case["tier_id"] < 0 else "index"))
+            t.append(f"tg_doc.fill={'yes' if case['fill'] else 'no'}")
+            if len({x["name"] for x in case["tiers"]}) < len(case["tiers"]):
+                t.append("tg_doc.duplicate_names")
+            if isinstance(impl, dict) and isinstance(impl.get("read"), dict) and "error" in impl["read"]:
+                t.append("tg_doc.read_error=" + impl["read"]["error"])
         elif k == "textgrid":
             t.append(f"tg.precision={case['precision']}")
             t.append(f"tg.point_tier={case['point_tier']}")
             t.append(f"tg.fill={'yes' if case['fill'] else 'no'}")
             if any(F(x[1]) >= 10 for x in case["t"]) and any(F(x[1]) < 10 for x in case["t"]):
                 t.append("tg.crosses_10s")
+            st_ = [F(x[1]) for x in case["t"]]
+            if any(a > b for a, b in zip(st_, st_[1:])):
+                t.append("tg.out_of_order")
+            if case["t"] and max(F(x[2]) for x in case["t"]) != F(case["t"][-1][2]):
+                t.append("tg.last_entry_not_latest_end")
+            if any("\n" in x[0] for x in case["t"]):
+                t.append("tg.label_with_newline")
+            if case.get("use_defaults"):
+                t.append("tg.all_options_default")
             if isinstance(impl, dict) and isinstance(impl.get("lines"), list) and len(impl["lines"]) > 6:
                 t.append("tg.type=" + impl["lines"][6].strip('"'))
             if isinstance(impl, dict) and isinstance(impl.get("lines"), dict):
@@ -1122,6 +1706,8 @@ class C11(PropertyCheck):
             t.append("frames.map=" + ("dict" if case.get("token2id") is not None else "none"))
             if case.get("unk") is not None:
                 t.append("frames.unk")
+            if case.get("f_int"):
+                t.append("frames.shift_is_int")
             if isinstance(impl, dict) and isinstance(impl.get("rows"), dict):
                 t.append("frames.bad_id")
         return t
@@ -1143,6 +1729,10 @@ class C11(PropertyCheck):
                         yield dict(case, utts=utts[:i] + [nu] + utts[i + 1:])
                 if u["utt"] != "u":
                     yield dict(case, utts=utts[:i] + [dict(u, utt="u")] + utts[i + 1:])
+            if case.get("iterable", "list") != "list":
+                yield dict(case, iterable="list")
+            if case.get("bare"):
+                yield dict(case, bare=False)
         elif k == "ctm":
             ts = case["ts"]
             for i in range(len(ts)):
@@ -1180,6 +1770,31 @@ class C11(PropertyCheck):
                 yield dict(case, t=t[:j] + t[j + 1:])
             if case.get("unk") is not None:
                 yield dict(case, unk=None)
+        elif k == "ctm_text":
+            ls = case["lines"]
+            for j in range(len(ls)):
+                recs = list(case["recs"])
+                if ls[j][1] is not None:
+                    recs[ls[j][1]] = None
+                c = dict(case, lines=ls[:j] + ls[j + 1:], recs=recs)
+                c["text"] = ctm_text_of(c)
+                yield c
+            if case["eol"] != "\n":
+                c = dict(case, eol="\n")
+                c["text"] = ctm_text_of(c)
+                yield c
+        elif k == "tg_doc":
+            tiers = case["tiers"]
+            for j in range(len(tiers)):
+                if len(tiers) > 1:
+                    yield dict(case, tiers=tiers[:j] + tiers[j + 1:])
+                for i in range(len(tiers[j]["entries"])):
+                    nt = dict(tiers[j], entries=tiers[j]["entries"][:i] + tiers[j]["entries"][i + 1:])
+                    yield dict(case, tiers=tiers[:j] + [nt] + tiers[j + 1:])
+            if case["fill"] is not None:
+                yield dict(case, fill=None)
+            if case["precision"] != 3:
+                yield dict(case, precision=3)
         elif k == "trn_lines":
             ls = case["lines"]
             if len(ls) > 1:
